@@ -116,7 +116,7 @@ def check_edit(case):
     return out
 
 
-def judge(H, net):
+def _judge(H, net):
     from synkit.CRN.Props.deficiency import DeficiencyAnalyzer
     from synkit.CRN.Hypergraph.conversion import hypergraph_to_bipartite
 
@@ -143,6 +143,17 @@ def judge(H, net):
             fails.append(Fail("complexes", f"{view}: {sorted(set(map(tuple, cxi)))}", str(sorted(cxs)), key_extra=view))
     nt = want["n_linkage_classes"] > 1 or want["deficiency"] > 0 or not want["weakly_reversible"]
     return Outcome(nontrivial=nt, outcome=f"c{want['n_complexes']}l{want['n_linkage_classes']}d{want['deficiency']}wr{int(want['weakly_reversible'])}", fails=fails, transitions=3)
+
+
+def judge(H, net):
+    """analysis must not change the network it analyses"""
+    from mc.checks.c15 import snap
+
+    before = snap(H)
+    out = _judge(H, net)
+    if snap(H) != before:
+        out.fails.append(Fail("analysis_mutates_network", "the network object changed while it was analysed", "unchanged"))
+    return out
 
 
 def subchecks(tier, seed):
